@@ -33,7 +33,7 @@ func init() {
 		ID:    "C08",
 		Level: "exploration",
 		Rule: "cases = 3..14 records with seeded bodies (fields i/s/b/f/t/n of every msgpack kind incl. NaN, nil and missing, nested map, slice of maps, slice of scalars) and seeded created/updated/expiry times x <=24 steps: whole-record Set, single-field PatchTreasures, Delete, idle eviction, restart, query pairs; 30% of the cases run a writer concurrently with the first (index-building) query; " +
-			"queries = AND/OR group of 1..3 legs (+ optional sub-group) over paths i, s, nest.x, arr[*].v, tags[*], arr.#len with EQUAL of every compare kind / STRING_IN / INT32_IN / INT64_IN / NOT_EQUAL / GREATER_THAN / IS_EMPTY / CONTAINS, optional labels, index key/creation/update/expiration asc/desc, From, Limit, MaxResults, time window, Include/ExcludeKeys, KeysOnly; " +
+			"queries = AND/OR group of 1..3 legs (+ optional sub-group, + optional nested-slice member ANY/ALL/NONE over arr) over paths i, s, nest.x, arr[*].v, tags[*], arr.#len with EQUAL of every compare kind / STRING_IN / INT32_IN / INT64_IN / NOT_EQUAL / GREATER_THAN / IS_EMPTY / CONTAINS, optional labels, index key/creation/update/expiration asc/desc, From, Limit, MaxResults, time window, Include/ExcludeKeys, KeysOnly; " +
 			"oracle: stream(F) == stream(OR{SubGroups:[F]}) record by record (order compared up to ties of the sort attribute), same bodies, same matched labels; non-trivial = the planner chose the index route and at least one record matched; distinct = hash of (contents, query)",
 		Gen: genC08,
 		Run: runC08,
@@ -210,6 +210,19 @@ func c08group(r *rng, depth int) *hydrapb.FilterGroup {
 	if depth == 0 && r.chance(1, 4) {
 		g.SubGroups = append(g.SubGroups, c08group(r, 1))
 	}
+	if r.chance(1, 4) {
+		// a member the field index cannot answer: some/every/no element of the slice of maps satisfies a condition
+		vp := "v"
+		leg := c08leg(r)
+		leg.BytesFieldPath = &vp
+		ns := &hydrapb.NestedSliceWhereFilter{EvalMode: []hydrapb.NestedSliceWhereFilter_Mode{hydrapb.NestedSliceWhereFilter_ANY, hydrapb.NestedSliceWhereFilter_ALL, hydrapb.NestedSliceWhereFilter_NONE}[r.intn(3)],
+			SlicePath: "arr", Conditions: &hydrapb.FilterGroup{Logic: hydrapb.FilterLogic_AND, Filters: []*hydrapb.TreasureFilter{leg}}}
+		if r.chance(1, 2) {
+			l := fmt.Sprintf("N%d", r.intn(3))
+			ns.Label = &l
+		}
+		g.NestedSliceWhereFilters = append(g.NestedSliceWhereFilters, ns)
+	}
 	return g
 }
 
@@ -245,7 +258,7 @@ func c08query(seed int64, swamp string, base time.Time, nkeys int) *hydrapb.GetB
 	if r.chance(1, 4) {
 		q.MaxResults = int32(1 + r.intn(3))
 	}
-	if q.IndexType != hydrapb.IndexType_KEY && r.chance(1, 3) {
+	if (q.IndexType != hydrapb.IndexType_KEY || r.chance(1, 3)) && r.chance(1, 3) {
 		if r.chance(2, 3) {
 			q.FromTime = timestamppb.New(base.Add(time.Duration(r.intn(8)) * time.Second))
 		}
